@@ -2,3 +2,4 @@
 import UgoVerif.Props.C15
 import UgoVerif.Props.C17
 import UgoVerif.Props.C13
+import UgoVerif.Props.C20
